@@ -59,9 +59,31 @@ func rV2T(v value) rtype {
 	return v.(structure)[0].(rtype)
 }
 
-// Given a reflect.Value, returns the underlying interpreter value.
+// Given a reflect.Value, returns the underlying interpreter value (through
+// the address for addressable Values, so that it is always current).
 func rV2V(v value) value {
-	return v.(structure)[1]
+	st := v.(structure)
+	if len(st) == 3 {
+		if p, ok := st[2].(*value); ok && p != nil {
+			return *p
+		}
+	}
+	return st[1]
+}
+
+// makeReflectValueAddr makes an addressable reflect.Value for the variable *p.
+func makeReflectValueAddr(t types.Type, p *value) value {
+	return structure{rtype{t}, *p, p}
+}
+
+func rVAddr(v value) *value {
+	st := v.(structure)
+	if len(st) == 3 {
+		if p, ok := st[2].(*value); ok {
+			return p
+		}
+	}
+	return nil
 }
 
 // makeReflectType boxes up an rtype in a reflect.Type interface.
@@ -365,7 +387,10 @@ func ext۰reflect۰Value۰Index(fr *frame, args []value) value {
 	case array:
 		return makeReflectValue(t.(*types.Array).Elem(), v[i])
 	case []value:
-		return makeReflectValue(t.(*types.Slice).Elem(), v[i])
+		if i < 0 || i >= len(v) {
+			panic(targetPanic{iface{fr.i.runtimeErrorString, "reflect: slice index out of range"}})
+		}
+		return makeReflectValueAddr(t.(*types.Slice).Elem(), &v[i])
 	default:
 		panic(fmt.Sprintf("reflect.(Value).Index(%T)", v))
 	}
@@ -376,7 +401,11 @@ func ext۰reflect۰Value۰Bool(fr *frame, args []value) value {
 	return rV2V(args[0]).(bool)
 }
 
-func ext۰reflect۰Value۰CanAddr(fr *frame, args []value) value {
+func ext۰reflect۰Value۰CanSet(fr *frame, args []value) value {
+	return rVAddr(args[0]) != nil
+}
+
+func ext۰reflect۰Value۰CanAddr0(fr *frame, args []value) value {
 	// Signature: func (v reflect.Value) bool
 	// Always false for our representation.
 	return false
@@ -394,11 +423,11 @@ func ext۰reflect۰Value۰Elem(fr *frame, args []value) value {
 	case iface:
 		return makeReflectValue(x.t, x.v)
 	case *value:
-		var v value
-		if x != nil {
-			v = *x
+		et := rV2T(args[0]).t.Underlying().(*types.Pointer).Elem()
+		if x == nil {
+			return structure{rtype{nil}, nil}
 		}
-		return makeReflectValue(rV2T(args[0]).t.Underlying().(*types.Pointer).Elem(), v)
+		return makeReflectValueAddr(et, x)
 	default:
 		panic(fmt.Sprintf("reflect.(Value).Elem(%T)", x))
 	}
@@ -408,7 +437,11 @@ func ext۰reflect۰Value۰Field(fr *frame, args []value) value {
 	// Signature: func (v reflect.Value, i int) reflect.Value
 	v := args[0]
 	i := args[1].(int)
-	return makeReflectValue(rV2T(v).t.Underlying().(*types.Struct).Field(i).Type(), rV2V(v).(structure)[i])
+	ft := rV2T(v).t.Underlying().(*types.Struct).Field(i).Type()
+	if rVAddr(v) != nil {
+		return makeReflectValueAddr(ft, &rV2V(v).(structure)[i])
+	}
+	return makeReflectValue(ft, rV2V(v).(structure)[i])
 }
 
 func ext۰reflect۰Value۰Float(fr *frame, args []value) value {
@@ -475,8 +508,51 @@ func ext۰reflect۰Value۰IsValid(fr *frame, args []value) value {
 }
 
 func ext۰reflect۰Value۰Set(fr *frame, args []value) value {
-	// TODO(adonovan): implement.
+	p := rVAddr(args[0])
+	if p == nil {
+		panic(targetPanic{iface{fr.i.runtimeErrorString, "reflect: reflect.Value.Set using unaddressable value"}})
+	}
+	dt := rV2T(args[0]).t
+	x := args[1]
+	xv := copyVal(rV2V(x))
+	if _, dstI := dt.Underlying().(*types.Interface); dstI {
+		if _, srcI := rV2T(x).t.Underlying().(*types.Interface); !srcI {
+			xv = iface{rV2T(x).t, xv}
+		}
+	}
+	*p = xv
 	return nil
+}
+
+func ext۰reflect۰Value۰SetZero(fr *frame, args []value) value {
+	p := rVAddr(args[0])
+	if p == nil {
+		panic(targetPanic{iface{fr.i.runtimeErrorString, "reflect: reflect.Value.SetZero using unaddressable value"}})
+	}
+	*p = zero(rV2T(args[0]).t)
+	return nil
+}
+
+func ext۰reflect۰Value۰Addr(fr *frame, args []value) value {
+	p := rVAddr(args[0])
+	if p == nil {
+		panic(targetPanic{iface{fr.i.runtimeErrorString, "reflect.Value.Addr of unaddressable value"}})
+	}
+	return makeReflectValue(types.NewPointer(rV2T(args[0]).t), p)
+}
+
+func ext۰reflect۰MakeSlice(fr *frame, args []value) value {
+	t := args[0].(iface).v.(rtype).t
+	n, c := args[1].(int), args[2].(int)
+	if n < 0 || c < n || c > 1<<20 {
+		panic(targetPanic{iface{fr.i.runtimeErrorString, "reflect.MakeSlice: bad len or cap"}})
+	}
+	et := t.Underlying().(*types.Slice).Elem()
+	sl := make([]value, n, c)
+	for k := range sl {
+		sl[k] = zero(et)
+	}
+	return makeReflectValue(t, sl)
 }
 
 func ext۰reflect۰valueInterface(fr *frame, args []value) value {
@@ -586,6 +662,7 @@ func initReflect0(i *interpreter) {
 		"Size":      newMethod(i.reflectPackage, rtypeType, "Size"),
 		"String":    newMethod(i.reflectPackage, rtypeType, "String"),
 
+		"Method":       newMethod(i.reflectPackage, rtypeType, "Method"),
 		"IsVariadic":   newMethod(i.reflectPackage, rtypeType, "IsVariadic"),
 		"Name":         newMethod(i.reflectPackage, rtypeType, "Name"),
 		"PkgPath":      newMethod(i.reflectPackage, rtypeType, "PkgPath"),
@@ -673,4 +750,80 @@ func ext۰reflect۰Value۰Call(fr *frame, args []value) value {
 		}
 	}
 	return out
+}
+
+// (reflect.rtype).Method(i): exported methods in name order; Type has the
+// receiver as its first parameter (as for non-interface types).
+func ext۰reflect۰rtype۰Method(fr *frame, args []value) value {
+	t := args[0].(rtype).t
+	k := args[1].(int)
+	mset := fr.i.prog.MethodSets.MethodSet(t)
+	var sels []*types.Selection
+	for j := 0; j < mset.Len(); j++ {
+		if mset.At(j).Obj().Exported() {
+			sels = append(sels, mset.At(j))
+		}
+	}
+	if k < 0 || k >= len(sels) {
+		panic(targetPanic{iface{fr.i.runtimeErrorString, "reflect: Method index out of range"}})
+	}
+	sel := sels[k]
+	sig := sel.Type().(*types.Signature)
+	var params []*types.Var
+	if _, isI := t.Underlying().(*types.Interface); !isI {
+		params = append(params, types.NewVar(token.NoPos, nil, "recv", t))
+	}
+	for j := 0; j < sig.Params().Len(); j++ {
+		params = append(params, sig.Params().At(j))
+	}
+	ft := types.NewSignatureType(nil, nil, nil, types.NewTuple(params...), sig.Results(), sig.Variadic())
+	return structure{sel.Obj().Name(), "", makeReflectType(rtype{ft}), makeReflectValue(ft, nil), k}
+}
+
+func exportedMethods(fr *frame, t types.Type) []*types.Selection {
+	mset := fr.i.prog.MethodSets.MethodSet(t)
+	var sels []*types.Selection
+	for j := 0; j < mset.Len(); j++ {
+		if mset.At(j).Obj().Exported() {
+			sels = append(sels, mset.At(j))
+		}
+	}
+	return sels
+}
+
+// (reflect.Value).Method(i): a function value bound to the receiver.
+func ext۰reflect۰Value۰Method(fr *frame, args []value) value {
+	t := rV2T(args[0]).t
+	recv := rV2V(args[0])
+	k := args[1].(int)
+	if it, isI := t.Underlying().(*types.Interface); isI {
+		_ = it
+		x, ok := recv.(iface)
+		if !ok || x.t == nil {
+			panic(targetPanic{iface{fr.i.runtimeErrorString, "reflect: Method on nil interface value"}})
+		}
+		t, recv = x.t, x.v
+	}
+	sels := exportedMethods(fr, t)
+	if k < 0 || k >= len(sels) {
+		panic(targetPanic{iface{fr.i.runtimeErrorString, "reflect: Method index out of range"}})
+	}
+	fn := fr.i.prog.MethodValue(sels[k])
+	if fn == nil {
+		panic(pathEnd{stUnsupported, "reflect.Value.Method: no method value"})
+	}
+	sig := sels[k].Type().(*types.Signature)
+	ft := types.NewSignatureType(nil, nil, nil, sig.Params(), sig.Results(), sig.Variadic())
+	bound := &nativeFn{name: "bound:" + fn.String(), f: func(fr2 *frame, a []value) value {
+		return callSSA(fr2.i, fr2, 0, fn, append([]value{copyVal(recv)}, a...), nil)
+	}}
+	return makeReflectValue(ft, bound)
+}
+
+func ext۰reflect۰Value۰NumMethodExported(fr *frame, args []value) value {
+	return len(exportedMethods(fr, rV2T(args[0]).t))
+}
+
+func ext۰reflect۰Value۰CanAddr1(fr *frame, args []value) value {
+	return rVAddr(args[0]) != nil
 }
